@@ -156,18 +156,21 @@ example : (stepRaw (run s1 [.measure .digital]) (.delay 100 (.user 0) false)).er
 /-! ### Parametrized mode (on the template model of PulserModel/Param.lean) -/
 
 open Param in
-/-- **Using a variable makes the sequence parametrized** — whether or not the call then
-succeeds (this is what finding F3 is about: even a refused foreign variable flips the mode). -/
+/-- **Using a (declared) variable makes the sequence parametrized** — whether or not the call
+is then accepted by the store-time checks.  A call with an unknown or foreign variable is
+refused and changes nothing (after the repair of F3; it used to flip the mode). -/
 theorem variable_use_parametrizes (t : Tmpl) (p : POp) (h : p.isParam = true) :
-    (tstep t p).1.param = true := by
+    (varsDeclared t p = true → (tstep t p).1.param = true) ∧
+    (varsDeclared t p = false → tstep t p = (t, some .unknownVariable)) := by
   unfold tstep
-  simp only [h, if_true, Bool.true_and]
-  split
-  · rfl
-  · simp only [Bool.not_true, Bool.false_eq_true, if_false]
+  constructor
+  · intro hv
+    simp only [h, hv, Bool.not_true, Bool.and_false, Bool.false_eq_true, if_false, if_true]
     split
     · rfl
     · split <;> rfl
+  · intro hv
+    simp [h, hv]
 
 open Param in
 /-- **Once parametrized, always parametrized** (until `build`, which returns a new sequence),
